@@ -10,7 +10,8 @@ Definition genv : gob_env := {|
   ge_sw_dec := sw_gobDecodeItem; ge_sw_dec_default := sw_gobDecodeItem_default;
   ge_sw_typer := sw_GetItemByType; ge_sw_typer_default := sw_GetItemByType_default;
   ge_layout := layout_of; ge_layout_endpoints := layout_endpoints;
-  ge_any_map_is_object := true; ge_ptr_iri := true; ge_endpoints_codec := true |}.
+  ge_leaf_w := gobw_leaf; ge_leaf_r := gobr_leaf; ge_leaf_layouts := gob_leaf_layouts; ge_sniff := gob_sniff;
+  ge_ptr_iri := true; ge_endpoints_codec := true |}.
 
 (* ---- the pinned tree (commit e898418), as edits of the regenerated tables ---- *)
 Definition w_key (e : gwentry) : bytes := match e with GW _ k _ _ _ _ _ => k | _ => [] end.
@@ -52,6 +53,10 @@ Definition gobr_funcs_pinned :=
      (fun e => match e with GR f k c p => if bytes_eqb k (B "endpoints") then [GR f k (B "*Endpoints.GobDecode") p] else [e] | _ => [e] end)
   gobr_funcs)))).
 
+(* pinned gobDecodeItem: a property map is an object only when it has a "type" or an "id" *)
+Definition gob_sniff_pinned : list gsniff :=
+  map (fun s => match s with GSMap fn tkey _ pos => GSMap fn tkey false pos | _ => s end) gob_sniff.
+
 Definition genv_pinned : gob_env := {|
   ge_wfuncs := gobw_funcs_pinned; ge_rfuncs := gobr_funcs_pinned;
   ge_enc_methods := gob_enc_methods; ge_dec_methods := gob_dec_methods;
@@ -59,4 +64,5 @@ Definition genv_pinned : gob_env := {|
   ge_sw_dec := sw_gobDecodeItem; ge_sw_dec_default := sw_gobDecodeItem_default;
   ge_sw_typer := sw_GetItemByType; ge_sw_typer_default := sw_GetItemByType_default;
   ge_layout := layout_of; ge_layout_endpoints := layout_endpoints;
-  ge_any_map_is_object := false; ge_ptr_iri := false; ge_endpoints_codec := false |}.
+  ge_leaf_w := gobw_leaf; ge_leaf_r := gobr_leaf; ge_leaf_layouts := gob_leaf_layouts; ge_sniff := gob_sniff_pinned;
+  ge_ptr_iri := false; ge_endpoints_codec := false |}.
